@@ -86,6 +86,33 @@ theorem C02_packets_change_no_privileged_state (s : State) :
         s'.relayers = s.relayers ∧ ∀ x, lookup s'.bridges x = lookup s.bridges x) :=
   ⟨fun p => recvPacket_priv_frame s p, fun p s' h => refundPacket_priv_frame s s' p h⟩
 
+/-- **Every step of every history.**  For each operation of a chain history (a transaction taking
+    effect or failing, an ICS20 receive / timeout / acknowledgement, a block end): if it changes a
+    bridge account's entry, the relayer set, or anything the sudo address owns apart from the
+    validator set, then it is a transaction whose signer held that privilege in the state the
+    step started on.  Since this holds for every state, it holds at every point of every history
+    (`run` of `Ledger/Escrow.lean`), so a former holder — whose privilege was re-assigned at any
+    earlier point — can change nothing. -/
+theorem C02_every_step_attributed (s : State) (op : Op) :
+    (sudoOwnedStatic (stepOp s op) ≠ sudoOwnedStatic s → ∃ t, op = .tx t ∧ s.sudo = t.signer) ∧
+    ((stepOp s op).relayers ≠ s.relayers →
+      ∃ t, op = .tx t ∧ (s.ibcSudo = t.signer ∨ s.sudo = t.signer)) ∧
+    (∀ x, lookup (stepOp s op).bridges x ≠ lookup s.bridges x →
+      ∃ t, op = .tx t ∧ ((∃ br, lookup s.bridges x = some br ∧ br.sudo = t.signer) ∨
+        (x = t.signer ∧ lookup s.bridges x = none))) :=
+  stepOp_priv_change s op
+
+/-- The block end changes no privileged state except the validator set, and that only by
+    applying the pending updates (which only sudo-signed transactions can create, by
+    `C02_tx_priv_change_authorised`: `valUpdates` is part of `sudoOwned`). -/
+theorem C02_block_end_applies_pending_updates_only (s : State) :
+    sudoOwnedStatic (endBlock s).2.2 = sudoOwnedStatic s ∧
+    (endBlock s).2.2.relayers = s.relayers ∧
+    (∀ x, lookup (endBlock s).2.2.bridges x = lookup s.bridges x) ∧
+    ((endBlock s).1 = true → (endBlock s).2.2.valUpdates = [] ∧
+      (endBlock s).2.2.vals = if s.postAspen then s.vals else applyValUpdates s.vals s.valUpdates) :=
+  endBlock_priv_frame s
+
 /-- Non-vacuity of the frame theorems: a sudo change by the sudo address executes and changes
     what the sudo address owns; the same action signed by anybody else does not execute. -/
 example :
